@@ -566,7 +566,7 @@ func sandboxCase(c *lib.Ctx, state *core.BuildState, t sbxTarget) {
 		bt.Test = &core.TestFields{Sandbox: t.TestSbx}
 	}
 	ok := asp.VerifC20ValidateSandbox(state, bt) == nil
-	in := map[string]any{"kind": "sandbox", "whitelist": jsl(whitelist), "experimental_dirs": dirs, "target": js(t.Label),
+	in := map[string]any{"kind": "sandbox", "whitelist": jsl(whitelist), "experimental_dirs": dirs, "target_label": js(t.Label),
 		"filegroup": t.Filegroup, "remote_file": t.Remote, "sandbox": t.Sandbox, "has_test": t.HasTest, "test_sandbox": t.TestSbx, "accepted": ok}
 	test := "None"
 	if t.HasTest {
@@ -756,6 +756,67 @@ func main() {
 			"/ different packages / non-empty expansion", maxLen, alphabet))
 
 		labels := map[core.BuildLabel]bool{}
+
+		// --- replay of one failing input (the shapes the oracle reports): only that input is run
+		var rp struct {
+			Target  *string   `json:"target"`
+			Cur     string    `json:"current_path"`
+			Pattern *jsLabel  `json:"pattern"`
+			Other   *jsLabel  `json:"other"`
+			Kind    string    `json:"kind"`
+			WL      []jsLabel `json:"whitelist"`
+			Dirs    []string  `json:"experimental_dirs"`
+			Tgt     *jsLabel  `json:"target_label"`
+			FG      bool      `json:"filegroup"`
+			Remote  bool      `json:"remote_file"`
+			Sbx     bool      `json:"sandbox"`
+			HasTest bool      `json:"has_test"`
+			TestSbx bool      `json:"test_sandbox"`
+			Label   *jsLabel  `json:"label"`
+			Dep     *jsLabel  `json:"dep"`
+			Vis     []jsLabel `json:"visibility"`
+		}
+		unjs := func(j jsLabel) core.BuildLabel {
+			return core.BuildLabel{PackageName: j.Pkg, Name: j.Name, Subrepo: j.Subrepo}
+		}
+		unjsl := func(js []jsLabel) []core.BuildLabel {
+			out := []core.BuildLabel{}
+			for _, j := range js {
+				out = append(out, unjs(j))
+			}
+			return out
+		}
+		if c.Replay != "" {
+			replayed := false
+			func() {
+				defer func() { recover() }() // a replay of another shape (e.g. a tie-broken file): fall through to the full run
+				if !c.ReadReplay(&rp) {
+					return
+				}
+				switch {
+				case rp.Kind == "sandbox" && rp.Tgt != nil:
+					sandboxCase(c, sandboxState(unjsl(rp.WL), rp.Dirs), sbxTarget{unjs(*rp.Tgt), rp.FG, rp.Remote, rp.Sbx, rp.HasTest, rp.TestSbx})
+					replayed = true
+				case rp.Kind == "cansee" && rp.Label != nil && rp.Dep != nil:
+					cfg := core.DefaultConfiguration()
+					cfg.Parse.ExperimentalDir = rp.Dirs
+					canSeeCase(c, newState(cfg), rp.Dirs, unjs(*rp.Label), unjs(*rp.Dep), unjsl(rp.Vis))
+					replayed = true
+				case rp.Pattern != nil && rp.Other != nil:
+					selectCase(c, []core.BuildLabel{unjs(*rp.Pattern)}, []core.BuildLabel{unjs(*rp.Other)})
+					replayed = true
+				case rp.Target != nil:
+					parseCase(c, *rp.Target, rp.Cur, "", labels)
+					replayed = true
+				}
+			}()
+			if replayed {
+				for _, k := range []string{"parse", "sandbox", "cansee", "print"} {
+					closeBatch(c, k)
+				}
+				return
+			}
+		}
 
 		// --- 1a. exhaustive strings
 		// groups of prefix length 3 compared by digest (every string once), and again entry by entry for all strings up to
